@@ -92,51 +92,46 @@ def _with_twins(layout: Sequence[List[int]]) -> Iterable[List[List[int]]]:
 
 def _lookup_layouts(tier: str) -> List[Tuple[bool, List[List[int]]]]:
     """(circular, genes) for the lookup family."""
+    quick = tier == "quick"
     simple = _simple_genes()
     small = _simple_genes(limit=20)
     crossing = _crossing_genes()
     layouts: List[Tuple[bool, List[List[int]]]] = []
-    max_linear = 3 if tier == "quick" else 4
-    for size in range(1, max_linear + 1):
+
+    def add(circular: bool, genes: Iterable[Sequence[int]]) -> None:
+        layouts.append((circular, [list(g) for g in genes]))
+
+    # lines: every layout of 1..3 (thorough: 4) grid genes, plus larger ones from the left part
+    for size in range(1, (3 if quick else 4) + 1):
         for combo in itertools.combinations(simple, size):
-            layouts.append((False, [list(g) for g in combo]))
-    if tier == "quick":
-        for combo in itertools.combinations(small, 4):
-            layouts.append((False, [list(g) for g in combo]))
-    else:
-        for combo in itertools.combinations(small, 5):
-            layouts.append((False, [list(g) for g in combo]))
+            add(False, combo)
+    for combo in itertools.combinations(small, 4 if quick else 5):
+        add(False, combo)
     # identical coordinates on both strands
     for size in (1, 2):
         for combo in itertools.combinations(simple if size == 1 else small, size):
             for layout in list(_with_twins(combo))[1:]:
-                layouts.append((False, layout))
-    # rings: without and with origin-spanning genes
-    ring_sizes = (0, 1, 2) if tier == "quick" else (0, 1, 2, 3)
-    for size in ring_sizes:
-        for combo in itertools.combinations(simple, size):
-            base = [list(g) for g in combo]
-            if base:
-                layouts.append((True, base))
-            for cross in crossing:
-                layouts.append((True, base + [list(cross)]))
-                if size == 1:                                  # the other insertion order
-                    layouts.append((True, [list(cross)] + base))
-    extra_size = 3 if tier == "quick" else 4
-    for combo in itertools.combinations(small, extra_size):
-        base = [list(g) for g in combo]
-        layouts.append((True, base))
-        for cross in crossing:
-            layouts.append((True, base + [list(cross)]))
-    # two nested / overlapping origin-spanning genes
-    pair_sizes = (0, 1) if tier == "quick" else (0, 1, 2)
-    for first, second in itertools.combinations(crossing, 2):
-        for size in pair_sizes:
-            for combo in itertools.combinations(small, size):
-                layouts.append((True, [list(g) for g in combo] + [list(first), list(second)]))
-    # an origin-spanning gene and its opposite-strand twin
+                add(False, layout)
+    # rings without / with one origin-spanning gene
+    for gene in simple:
+        add(True, [gene])
     for cross in crossing:
-        layouts.append((True, [list(cross), [cross[0], cross[1], -cross[2]]]))
+        add(True, [cross])
+        add(True, [cross, [cross[0], cross[1], -cross[2]]])              # opposite-strand twin
+        for gene in simple:
+            add(True, [gene, cross])
+            add(True, [cross, gene])                                     # the other insertion order
+    for size in ((2,) if quick else (2, 3)):
+        for combo in itertools.combinations(small if quick else simple, size):
+            add(True, combo)
+            for cross in crossing:
+                add(True, list(combo) + [cross])
+    # two nested / overlapping origin-spanning genes
+    for first, second in itertools.combinations(crossing, 2):
+        add(True, [first, second])
+        for size in ((1,) if quick else (1, 2)):
+            for combo in itertools.combinations(small[::3] if quick else small, size):
+                add(True, list(combo) + [first, second])
     return layouts
 
 
@@ -164,6 +159,7 @@ AREA_POOL_LINEAR = [
     [["p", [10, 20], [10, 20], "pb"]],
     [["s", [5, 15]]],
     [["s", [0, 30]]],
+    [["s", [0, 10]]],
     [["p", [10, 15], [5, 20], "pa"], ["p", [15, 25], [10, 30], "pb"]],       # neighbouring
     [["p", [0, 10], [0, 15], "pa"], ["p", [20, 25], [20, 30], "pb"]],        # disjoint, contig edges
     [["p", [10, 15], [5, 20], "pa"], ["s", [15, 30]]],                       # overlap proto/sub
@@ -193,35 +189,45 @@ def _slot_vectors(genes: int, operations: int, tier: str) -> List[List[int]]:
     if genes <= 2 or (genes == 3 and tier != "quick"):
         return [list(v) for v in itertools.product(slots, repeat=genes)]
     # larger layouts: every "all genes at the same point" history, and every history in which
-    # each gene is added either first, after the first area, before or after create_regions
+    # each gene is added either before everything or after everything
     vectors = {tuple([s] * genes) for s in slots}
-    for pattern in itertools.product((0, operations, operations - 1, 1), repeat=genes):
+    for pattern in itertools.product((0, operations), repeat=genes):
         vectors.add(tuple(pattern))
     return [list(v) for v in sorted(vectors)]
 
 
 def _build_layouts(tier: str) -> List[Tuple[bool, List[List[int]]]]:
+    quick = tier == "quick"
     simple = _simple_genes()
     small = _simple_genes(limit=20)
+    tiny = _simple_genes(limit=15)
     crossing = _crossing_genes()
+    if quick:
+        crossing = [g for g in crossing if g[:2] in ([25, 5], [20, 10], [15, 10], [25, 20])]
     layouts: List[Tuple[bool, List[List[int]]]] = []
-    for size in (1, 2):
-        for combo in itertools.combinations(simple, size):
-            layouts.append((False, [list(g) for g in combo]))
-            layouts.append((True, [list(g) for g in combo]))
+
+    def add(circular: bool, genes: Iterable[Sequence[int]]) -> None:
+        layouts.append((circular, [list(g) for g in genes]))
+
+    for gene in simple:
+        add(False, [gene])
+        add(True, [gene])
+    for combo in itertools.combinations(small if quick else simple, 2):
+        add(False, combo)
+        add(True, combo)
     for combo in itertools.combinations(small, 3):
-        layouts.append((False, [list(g) for g in combo]))
-    if tier != "quick":
-        for combo in itertools.combinations(small, 4):
-            layouts.append((False, [list(g) for g in combo]))
+        add(False, combo)
+    if not quick:
+        for combo in itertools.combinations(tiny, 4):
+            add(False, combo)
     for cross in crossing:
-        layouts.append((True, [list(cross)]))
+        add(True, [cross])
         for gene in simple:
-            layouts.append((True, [list(gene), list(cross)]))
-            layouts.append((True, [list(cross), list(gene)]))
-        pairs = itertools.combinations(small if tier == "quick" else simple, 2)
-        for combo in pairs:
-            layouts.append((True, [list(g) for g in combo] + [list(cross)]))
+            add(True, [gene, cross])
+            if not quick:
+                add(True, [cross, gene])
+        for combo in itertools.combinations(tiny if quick else small, 2):
+            add(True, list(combo) + [cross])
     return layouts
 
 
@@ -383,7 +389,7 @@ def _run_lookup_layout(run: Any, circular: bool, genes: List[List[int]], queries
             expected = _expected_lookup(genes, query, overlapping, length)
             nontrivial = len(genes) >= 2 and bool(expected)
             for clause, ok, detail in _evaluate_lookup(record, real, case):
-                run.check(clause, ok, case, nontrivial=nontrivial, detail=detail)
+                _report(run, clause, ok, case, nontrivial, detail)
 
 
 # ---------------------------------------------------------------------------------------------
@@ -524,7 +530,20 @@ def _normalise(signature: Any) -> Any:
 def _check_build(run: Any, case: Dict[str, Any]) -> None:
     results, nontrivial = _build_results(case)
     for clause, ok, detail in results:
-        run.check(clause, ok, case, nontrivial=nontrivial, detail=detail)
+        _report(run, clause, ok, case, nontrivial, detail)
+
+
+def _report(run: Any, clause: str, ok: bool, case: Dict[str, Any], nontrivial: bool, detail: str) -> None:
+    """run.check; a failure that lies in one of the known-finding classes is recorded under
+    "<clause> [<id>]" so that the many inputs of a known class cannot fill the driver's
+    per-clause failure list and crowd out a failure of any other kind (the class predicates
+    accept both spellings of the clause)."""
+    if not ok:
+        for finding, predicate in FINDING_CLASSES.items():
+            if predicate(clause, case):
+                clause = f"{clause} [{finding}]"
+                break
+    run.check(clause, ok, case, nontrivial=nontrivial, detail=detail)
 
 
 # ---------------------------------------------------------------------------------------------
@@ -640,8 +659,13 @@ def _overlap_filter_case(case: Dict[str, Any]) -> bool:
         _expected_lookup(case["genes"], case["q"], False, case["L"])
 
 
+def _plain(clause: str) -> str:
+    return clause.split(" [")[0]
+
+
 def _is_f1(clause: str, case: Dict[str, Any]) -> bool:
     """Sweep heuristics on a record without origin-spanning genes."""
+    clause = _plain(clause)
     if case.get("fn") != "lookup" or clause not in ("within-exact", "overlapping-exact"):
         return False
     if any(spans_origin(g) for g in case["genes"]) or _is_f3(clause, case):
@@ -651,6 +675,7 @@ def _is_f1(clause: str, case: Dict[str, Any]) -> bool:
 
 def _is_f2(clause: str, case: Dict[str, Any]) -> bool:
     """Sweep heuristics defeated by an origin-spanning gene (sorted before index 0)."""
+    clause = _plain(clause)
     if case.get("fn") != "lookup" or clause not in ("within-exact", "overlapping-exact"):
         return False
     if not any(spans_origin(g) for g in case["genes"]) or _is_f3(clause, case):
@@ -660,7 +685,7 @@ def _is_f2(clause: str, case: Dict[str, Any]) -> bool:
 
 def _is_f3(clause: str, case: Dict[str, Any]) -> bool:
     """with_overlapping lookups of an origin-spanning location return contained genes only."""
-    return case.get("fn") == "lookup" and clause == "overlapping-exact" and _overlap_filter_case(case)
+    return case.get("fn") == "lookup" and _plain(clause) == "overlapping-exact" and _overlap_filter_case(case)
 
 
 def _mask_to_arc(mask: int, length: int) -> Optional[List[int]]:
@@ -711,6 +736,7 @@ def _area_side_locations(case: Dict[str, Any]) -> List[Tuple[int, List[int]]]:
 def _is_f4(clause: str, case: Dict[str, Any]) -> bool:
     """Membership clauses of a history in which some area-side operation runs after genes were
     added and the pinned lookup (see F1-F3) misses a gene for that area's location."""
+    clause = _plain(clause)
     if case.get("fn") != "build" or clause not in BUILD_CLAUSES:
         return False
     length = case["L"]
@@ -724,9 +750,39 @@ def _is_f4(clause: str, case: Dict[str, Any]) -> bool:
     return False
 
 
+def _is_f5(clause: str, case: Dict[str, Any]) -> bool:
+    """A gene added after create_regions, at least two regions, and the gene lies in the FIRST
+    region in record order (the origin-spanning one, else the one with the smallest start)
+    either with coordinates identical to that region or, for an origin-spanning region, inside
+    its part before the origin: `_link_cds_to_parent` then looks at `_regions[left - 1:...]` with
+    a bisect position that skips the first region."""
+    clause = _plain(clause)
+    if case.get("fn") != "build" or clause not in ("area-genes-exact", "gene-region-link",
+                                                   "build-order-independent"):
+        return False
+    length = case["L"]
+    last = len(case["areas"]) + 2
+    regions = [arc for operation, arc in _area_side_locations(case) if operation == last - 1]
+    if len(regions) < 2:
+        return False
+    wrapped = [r for r in regions if spans_origin(r)]
+    first = wrapped[0] if wrapped else min(regions, key=lambda r: r[0])
+    first_mask = arc_mask(first, length)
+    for gene, slot in zip(case["genes"], case["slots"]):
+        if slot != last:
+            continue
+        mask = arc_mask(gene, length)
+        if mask == first_mask:
+            return True
+        if spans_origin(first) and not spans_origin(gene) and mask & ~first_mask == 0 and gene[0] >= first[0]:
+            return True
+    return False
+
+
 FINDING_CLASSES = {
     "C08-F1": _is_f1,
     "C08-F2": _is_f2,
     "C08-F3": _is_f3,
     "C08-F4": _is_f4,
+    "C08-F5": _is_f5,
 }
